@@ -952,3 +952,227 @@ def core_double_pause_on_failure(req):
     if msg:
         return fail("context events after a task failed while suspended inside nested contexts: " + msg, events=list(log))
     return None
+
+
+@scenario(["async_task.AsyncTask._computed", "async_task.AsyncTask._resume_contexts", "scheduler.TaskScheduler._continue_with_task",
+           "scheduler.TaskScheduler._handle_async_task", "scheduler.TaskScheduler._execute"], ["C08", "C10"])
+def core_cleanup_failure_on_close(req):
+    """A task suspended inside a context is completed from outside (the context's resume() fails) while its generator is still alive; closing the generator runs the body's cleanup code, which raises.  The computation must still end with the scheduler clean, the awaiting task must receive the task's own error, subscribers are notified once, and the next computation behaves as on a fresh scheduler."""
+    from asynq import asynq as A, batching, scheduler, contexts
+    import io, contextlib
+
+    for cleanup in ("finally", "exit"):
+        class Ctx(contexts.AsyncContext):
+            def __init__(self):
+                self.n = 0
+
+            def resume(self):
+                self.n += 1
+                if self.n >= 2:
+                    raise KeyError("resume fails")
+
+            def pause(self):
+                pass
+
+        class BadExit(object):
+            def __enter__(self):
+                return self
+
+            def __exit__(self, *a):
+                raise ValueError("cleanup raises")
+        notified = []
+
+        @A()
+        def child():
+            if cleanup == "finally":
+                try:
+                    with Ctx():
+                        yield batching.DebugBatchItem("k", 1)
+                finally:
+                    raise ValueError("cleanup raises")
+            else:
+                with BadExit():
+                    with Ctx():
+                        yield batching.DebugBatchItem("k", 1)
+
+        @A()
+        def root():
+            t = child.asynq()
+            t.on_computed.subscribe(lambda _t: notified.append(1))
+            try:
+                yield t
+            except Exception as e:
+                return ("caught", type(e).__name__)
+            return "no error"
+
+        @A()
+        def plain(x):
+            v = yield batching.DebugBatchItem("k", x)
+            return v
+        _reset()
+        outcome = None
+        with contextlib.redirect_stdout(io.StringIO()), contextlib.redirect_stderr(io.StringIO()):
+            try:
+                outcome = ("returned", root())
+            except Exception as e:
+                outcome = ("escaped", type(e).__name__)
+        s = scheduler.get_scheduler()
+        if len(s._tasks) or len(s._batches) or s.active_task is not None:
+            return fail("the scheduler retains tasks of a computation in which a failed task's cleanup code raised while its generator was closed",
+                        cleanup=cleanup, outcome=repr(outcome), tasks=len(s._tasks), batches=len(s._batches), active=repr(s.active_task))
+        if outcome != ("returned", ("caught", "KeyError")):
+            return fail("the awaiting task did not receive the failed task's own error (the context's resume() error)",
+                        cleanup=cleanup, outcome=repr(outcome))
+        if notified != [1]:
+            return fail("on_computed subscribers of the failed task were not notified exactly once", cleanup=cleanup, notified=len(notified))
+        if plain(5) != 5 or len(s._tasks) or len(s._batches):
+            return fail("the next computation on the same thread does not behave as on a fresh scheduler", cleanup=cleanup)
+    return None
+
+
+@scenario(["async_task.extract_futures", "async_task.AsyncTask._accept_yield_result"], ["C01", "C02", "C03", "C04"])
+def extract_futures_unit(req):
+    """extract_futures(value, acc) appends exactly the futures inside value: members of tuples/lists right to left, dict values left to right, every occurrence once, nothing else, existing entries untouched; _accept_yield_result makes exactly these the task's dependencies.  All structures of tuples, lists and dicts to depth 2 and width 3 over computed futures, pending futures, None and a repeated future."""
+    from asynq import async_task, futures, asynq as A
+
+    def ref(v, out):
+        if v is None:
+            pass
+        elif isinstance(v, futures.FutureBase):
+            out.append(v)
+        elif type(v) is tuple or type(v) is list:
+            for x in reversed(v):
+                ref(x, out)
+        elif type(v) is dict:
+            for x in v.values():
+                ref(x, out)
+        return out
+    f1, f2, f3 = futures.ConstFuture(1), futures.Future(lambda: 2), futures.ConstFuture(3)
+    leaves = [f1, f2, None, f1]
+    level1 = []
+    for n in range(0, 4):
+        for combo in itertools.product(leaves, repeat=n) if n <= 2 else [(f1, f2, f3), (f2, None, f1), (f1, f1, f2)]:
+            level1.append(tuple(combo))
+            level1.append(list(combo))
+            level1.append({i: x for i, x in enumerate(combo)})
+    structs = list(leaves) + level1
+    for n in (1, 2, 3):
+        for combo in itertools.islice(itertools.product(level1[::7] + [f3, None], repeat=n), 0, 400):
+            structs.append(tuple(combo))
+            structs.append(list(combo))
+            structs.append({"k%d" % i: x for i, x in enumerate(combo)})
+    sentinel = futures.ConstFuture("old")
+
+    def first_occ(seq):
+        out = []
+        for x in seq:
+            if not any(x is y for y in out):
+                out.append(x)
+        return out
+
+    def start_order(deps):
+        # dependencies are pushed on a stack in list order, so they start in reverse list order
+        return first_occ(list(reversed(deps)))
+    for v in structs:
+        acc = [sentinel]
+        got = async_task.extract_futures(v, acc)
+        want = ref(v, [])
+        new = acc[1:]
+        ok = (got is acc and acc and acc[0] is sentinel and all(isinstance(x, futures.FutureBase) for x in new)
+              and len(start_order(new)) == len(start_order(want))
+              and all(a is b for a, b in zip(start_order(new), start_order(want))))
+        if not ok:
+            return fail("extract_futures does not append exactly the futures inside the value so that they start in the order written",
+                        value=repr(v)[:300], got=[repr(x) for x in acc][:12], expected=[repr(x) for x in [sentinel] + want][:12])
+
+    @A()
+    def body():
+        yield None
+    for v in structs[:400]:
+        t = body.asynq()
+        t._accept_yield_result(v)
+        want = ref(v, [])
+        deps = list(t._dependencies)
+        if (t._last_value is not v or len(start_order(deps)) != len(start_order(want))
+                or any(a is not b for a, b in zip(start_order(deps), start_order(want)))):
+            return fail("_accept_yield_result does not make exactly the futures inside the yielded value the task's dependencies, "
+                        "starting in the order written", value=repr(v)[:300], got=[repr(x) for x in deps][:12],
+                        expected=[repr(x) for x in want][:12])
+    return None
+
+
+@scenario(["contexts.AsyncContext.__exit__", "contexts.AsyncContext.__enter__", "contexts.leave_context", "contexts.enter_context"],
+          ["C06", "C07"])
+def core_hook_failure_at_block_boundary(req):
+    """A save-and-restore context whose pause() raises while its with-block is being left (or whose resume() raises while it is being entered): the task catches the error and goes on to block on a batch.  The context must be gone for good: no further resume/pause reaches it, the task reads the outer value for the rest of its life, other tasks read the outer value, and the value is restored when the computation ends."""
+    from asynq import asynq as A, batching, contexts, scoped_value
+    for where in ("exit", "enter"):
+        level = scoped_value.AsyncScopedValue("outer")
+        events = []
+
+        class Override(contexts.AsyncContext):
+            def __init__(self, value):
+                self.value = value
+                self.fail_next_pause = False
+                self.fail_next_resume = where == "enter"
+
+            def resume(self):
+                if self.fail_next_resume:
+                    self.fail_next_resume = False
+                    events.append("resume!")
+                    raise RuntimeError("resume failed")
+                self.old = level.get()
+                level.set(self.value)
+                events.append("resume")
+
+            def pause(self):
+                level.set(self.old)
+                events.append("pause")
+                if self.fail_next_pause:
+                    self.fail_next_pause = False
+                    raise RuntimeError("pause failed")
+
+        @A()
+        def reader():
+            yield batching.DebugBatchItem("k", 0)
+            return level.get()
+
+        @A()
+        def worker():
+            seen = []
+            ctx = Override("inner")
+            try:
+                with ctx:
+                    seen.append(level.get())
+                    yield batching.DebugBatchItem("k", 1)
+                    seen.append(level.get())
+                    ctx.fail_next_pause = True
+            except RuntimeError:
+                seen.append("caught")
+            n = len(events)
+            seen.append(level.get())
+            yield batching.DebugBatchItem("k", 2)
+            seen.append(level.get())
+            yield batching.DebugBatchItem("k", 3)
+            seen.append(level.get())
+            return seen, events[n:]
+
+        @A()
+        def main():
+            r = yield worker.asynq(), reader.asynq()
+            return r
+        _reset()
+        try:
+            (seen, later), other = main()
+        except Exception as e:
+            return fail("a hook failure at a with-block boundary that the task catches fails the computation", where=where,
+                        error=repr(e)[:200], events=list(events))
+        want = ["inner", "inner", "caught", "outer", "outer", "outer"] if where == "exit" else ["caught", "outer", "outer", "outer"]
+        if seen != want or other != "outer":
+            return fail("after a context's hook failed at the boundary of its with-block the task (or another task) does not read the outer value",
+                        where=where, seen=seen, expected=want, other_task_read=other)
+        if later:
+            return fail("a context whose with-block was left (or never entered) still receives resume/pause calls", where=where, later=list(later))
+        if level.get() != "outer":
+            return fail("the overridden value is not restored after the computation", where=where, value=level.get())
+    return None
